@@ -52,7 +52,11 @@ def gen_pat(rng, depth=3):
     if len(a) > 1 and not (a.startswith("[") and a.endswith("]") and a.count("[") == 1) \
             and not (len(a) == 2 and a[0] == "\\"):
         a = "(" + a + ")"
-    q = rng.choice(["*", "+", "?", "{0}", "{1}", "{2}", "{0,1}", "{0,2}", "{1,2}", "{2,2}", "{1,3}"])
+    if rng.random() < 0.5:
+        q = rng.choice(["*", "+", "?"])
+    else:
+        m = rng.randint(0, 3)
+        q = "{%d}" % m if rng.random() < 0.4 else "{%d,%d}" % (m, rng.randint(m, 3))
     return a + q, na + 1
 
 
